@@ -246,6 +246,9 @@ func TestVerifC16Pieces(t *testing.T) {
 			}
 			scr.Close()
 		}
+		if o.Reads == nil {
+			o.Reads = []c16Read{}
+		}
 		out.Emit(o)
 	}
 }
